@@ -42,7 +42,8 @@ def make_case(rng, i):
     sc = case["scenario"]
     # a raising guard is a failing callback too (method guards only; 5% of the valuations)
     for st in sc.steps:
-        if st.get("val"):
+        # (not while constructing: property guards are read when callbacks are registered)
+        if st.get("val") and st.get("op") == "send":
             for nm, g in sc.spec["guards"].items():
                 if (g["kind"] == "method" and rng.random() < 0.05) or (g["kind"] == "prop" and rng.random() < 0.12):
                     st["val"][nm] = "raise"
